@@ -43,120 +43,136 @@ Lemma R_result c st st1 :
   R c st st1 -> Inv st -> opened st = Some c -> Inv st1 /\ abs st1 = abs st /\ opened st1 = opened st.
 Proof. intros [K _] HI Hc. destruct (K HI Hc) as (I1 & A1 & O1 & _). split; [assumption|]. split; [assumption|congruence]. Qed.
 
+Section Generic.
+Variable Rel : cfg -> lstate -> lstate -> Prop.
+Hypothesis Rel_refl : forall c st, Rel c st st.
+Hypothesis Rel_trans : forall c a b d, Rel c a b -> Rel c b d -> Rel c a d.
+Hypothesis Rel_wi : forall c st i st1 s items, with_index H c st i = Ok (st1, s, items) -> Rel c st st1.
+
 Ltac wi_step E Hk :=
   match type of E with
   | context [with_index H ?c ?st ?i] =>
     let Hw := fresh "Hw" in
     destruct (with_index H c st i) as [[[?sa ?s] ?items]|] eqn:Hw; [|discriminate];
-    cbn [bind] in E; pose proof (with_index_R _ _ _ _ _ _ Hw) as Hk
+    cbn [bind] in E; pose proof (Rel_wi _ _ _ _ _ _ Hw) as Hk
   end.
 
-Lemma get_newest_back_R c n : forall st i st1 m,
-  get_newest_back H c st n i = Ok (st1, m) -> R c st st1.
-Proof.
+Lemma get_newest_back_G c n : forall st i st1 m,
+  get_newest_back H c st n i = Ok (st1, m) -> Rel c st st1.
+Proof using Rel_refl Rel_trans Rel_wi.
   induction n as [|n IH]; intros st i st1 m E; cbn [get_newest_back] in E; wi_step E Hk.
   - destruct (reader_get s items (is_last st i) OffsetNewest) as [m0|e]; [injection E as <- <-; exact Hk|].
     destruct e; discriminate.
   - destruct (reader_get s items (is_last st i) OffsetNewest) as [m0|e]; [injection E as <- <-; exact Hk|].
     destruct e; try discriminate. destruct (0 <? i); [|discriminate].
-    eapply R_trans; [exact Hk|]. eapply IH; eassumption.
+    eapply Rel_trans; [exact Hk|]. eapply IH; eassumption.
 Qed.
 
-Lemma log_get_R st off st1 m c : opened st = Some c -> log_get H st off = Ok (st1, m) -> R c st st1.
-Proof.
+Lemma log_get_G st off st1 m c : opened st = Some c -> log_get H st off = Ok (st1, m) -> Rel c st st1.
+Proof using Rel_refl Rel_trans Rel_wi.
   intros Hc. unfold log_get, get_cfg. rewrite Hc. cbn [bind].
   destruct (seg_get (bases (segs st)) off) as [i|]; [|discriminate]. cbn [bind].
   destruct (off =? OffsetNewest).
-  - apply get_newest_back_R.
+  - apply get_newest_back_G.
   - intros E. wi_step E Hk. destruct (reader_get s items (is_last st i) off) as [m0|e].
     + injection E as <- <-. exact Hk.
     + destruct e; try discriminate. destruct (i <? zlen (segs st) - 1); discriminate.
 Qed.
 
-Lemma get_by_key_back_R c k n : forall st i st1 m,
-  get_by_key_back H c st k n i = Ok (st1, m) -> R c st st1.
-Proof.
+Lemma get_by_key_back_G c k n : forall st i st1 m,
+  get_by_key_back H c st k n i = Ok (st1, m) -> Rel c st st1.
+Proof using Rel_refl Rel_trans Rel_wi.
   induction n as [|n IH]; intros st i st1 m E; cbn [get_by_key_back] in E; [discriminate|]. wi_step E Hk.
   destruct (reader_get_by_key H s items k) as [m0|e]; [injection E as <- <-; exact Hk|].
-  destruct e; try discriminate. eapply R_trans; [exact Hk|]. eapply IH; eassumption.
+  destruct e; try discriminate. eapply Rel_trans; [exact Hk|]. eapply IH; eassumption.
 Qed.
 
-Lemma log_get_by_key_R st k st1 m c : opened st = Some c -> log_get_by_key H st k = Ok (st1, m) -> R c st st1.
-Proof.
+Lemma log_get_by_key_G st k st1 m c : opened st = Some c -> log_get_by_key H st k = Ok (st1, m) -> Rel c st st1.
+Proof using Rel_refl Rel_trans Rel_wi.
   intros Hc. unfold log_get_by_key, get_cfg. rewrite Hc. cbn [bind].
-  destruct (negb (ckeys c)); [discriminate|]. apply get_by_key_back_R.
+  destruct (negb (ckeys c)); [discriminate|]. apply get_by_key_back_G.
 Qed.
 
-Lemma consume_by_key_fwd_R c k n : forall st i off max st1 o,
-  consume_by_key_fwd H c st k n i off max = Ok (st1, o) -> R c st st1.
-Proof.
+Lemma consume_by_key_fwd_G c k n : forall st i off max st1 o,
+  consume_by_key_fwd H c st k n i off max = Ok (st1, o) -> Rel c st st1.
+Proof using Rel_refl Rel_trans Rel_wi.
   induction n as [|n IH]; intros st i off max st1 o E; cbn [consume_by_key_fwd] in E; [discriminate|]. wi_step E Hk.
   destruct (reader_consume_by_key H s items k off max) as [[nx ms]|e]; [|discriminate]. cbn [bind] in E.
   destruct ms as [|m0 mr]; [|injection E as <- <-; exact Hk].
   destruct (zlen (segs st) - 1 <=? i); [injection E as <- <-; exact Hk|].
-  eapply R_trans; [exact Hk|]. eapply IH; eassumption.
+  eapply Rel_trans; [exact Hk|]. eapply IH; eassumption.
 Qed.
 
-Lemma log_consume_by_key_R st k off max st1 o c :
-  opened st = Some c -> log_consume_by_key H st k off max = Ok (st1, o) -> R c st st1.
-Proof.
+Lemma log_consume_by_key_G st k off max st1 o c :
+  opened st = Some c -> log_consume_by_key H st k off max = Ok (st1, o) -> Rel c st st1.
+Proof using Rel_refl Rel_trans Rel_wi.
   intros Hc. unfold log_consume_by_key, get_cfg. rewrite Hc. cbn [bind].
   destruct (negb (ckeys c)); [discriminate|]. destruct (seg_consume (bases (segs st)) off) as [i|]; [|discriminate]. cbn [bind].
-  apply consume_by_key_fwd_R.
+  apply consume_by_key_fwd_G.
 Qed.
 
-Lemma get_by_time_back_R c ts n : forall st i cand st1 cand1,
-  get_by_time_back H c st ts n i cand = Ok (st1, cand1) -> R c st st1.
-Proof.
+Lemma get_by_time_back_G c ts n : forall st i cand st1 cand1,
+  get_by_time_back H c st ts n i cand = Ok (st1, cand1) -> Rel c st st1.
+Proof using Rel_refl Rel_trans Rel_wi.
   induction n as [|n IH]; intros st i cand st1 cand1 E; cbn [get_by_time_back] in E.
-  - injection E as <- <-. apply R_refl.
+  - injection E as <- <-. apply Rel_refl.
   - wi_step E Hk.
     destruct (reader_get_by_time s items ts) as [m0|e].
-    + eapply R_trans; [exact Hk|]. eapply IH; eassumption.
-    + destruct e; try discriminate; try (eapply R_trans; [exact Hk|]; eapply IH; eassumption).
+    + eapply Rel_trans; [exact Hk|]. eapply IH; eassumption.
+    + destruct e; try discriminate; try (eapply Rel_trans; [exact Hk|]; eapply IH; eassumption).
       injection E as <- <-. exact Hk.
 Qed.
 
-Lemma log_get_by_time_R st ts st1 m c : opened st = Some c -> log_get_by_time H st ts = Ok (st1, m) -> R c st st1.
-Proof.
+Lemma log_get_by_time_G st ts st1 m c : opened st = Some c -> log_get_by_time H st ts = Ok (st1, m) -> Rel c st st1.
+Proof using Rel_refl Rel_trans Rel_wi.
   intros Hc. unfold log_get_by_time, get_cfg. rewrite Hc. cbn [bind].
   destruct (negb (ctimes c)); [discriminate|].
   destruct (get_by_time_back H c st ts (length (segs st)) (zlen (segs st) - 1) TEmpty) as [[sa cand]|] eqn:Eb; [|discriminate].
-  cbn [bind]. pose proof (get_by_time_back_R c ts _ _ _ _ _ _ Eb) as Hk.
+  cbn [bind]. pose proof (get_by_time_back_G c ts _ _ _ _ _ _ Eb) as Hk.
   destruct cand; try discriminate.
   - intros E. injection E as <- <-. exact Hk.
   - intros E. wi_step E Hk2. destruct (reader_get s items (is_last st i) OffsetOldest); [|discriminate]. cbn [bind] in E.
-    injection E as <- <-. exact (R_trans _ _ _ _ Hk Hk2).
+    injection E as <- <-. exact (Rel_trans _ _ _ _ Hk Hk2).
 Qed.
 
-Lemma log_next_R st st1 n c : opened st = Some c -> log_next H st = Ok (st1, n) -> R c st st1.
-Proof.
+Lemma log_next_G st st1 n c : opened st = Some c -> log_next H st = Ok (st1, n) -> Rel c st st1.
+Proof using Rel_refl Rel_trans Rel_wi.
   intros Hc. unfold log_next, get_cfg. rewrite Hc. cbn [bind]. intros E. wi_step E Hk. injection E as <- <-. exact Hk.
 Qed.
 
-Lemma stat_loop_R c n : forall st i acc st1 r, stat_loop H c st n i acc = Ok (st1, r) -> R c st st1.
-Proof.
+Lemma stat_loop_G c n : forall st i acc st1 r, stat_loop H c st n i acc = Ok (st1, r) -> Rel c st st1.
+Proof using Rel_refl Rel_trans Rel_wi.
   induction n as [|n IH]; intros st i acc st1 r E; cbn [stat_loop] in E.
-  - injection E as <- <-. apply R_refl.
-  - wi_step E Hk. destruct acc as [[sg cnt] sz]. eapply R_trans; [exact Hk|]. eapply IH; eassumption.
+  - injection E as <- <-. apply Rel_refl.
+  - wi_step E Hk. destruct acc as [[sg cnt] sz]. eapply Rel_trans; [exact Hk|]. eapply IH; eassumption.
 Qed.
 
-Lemma log_stat_R st st1 r c : opened st = Some c -> log_stat H st = Ok (st1, r) -> R c st st1.
-Proof.
+Lemma log_stat_G st st1 r c : opened st = Some c -> log_stat H st = Ok (st1, r) -> Rel c st st1.
+Proof using Rel_refl Rel_trans Rel_wi.
   intros Hc. unfold log_stat, get_cfg. rewrite Hc. cbn [bind]. destruct (lvirt st).
-  - intros E. injection E as <- <-. apply R_refl.
-  - apply stat_loop_R.
+  - intros E. injection E as <- <-. apply Rel_refl.
+  - apply stat_loop_G.
 Qed.
 
-Lemma log_consume_R st off max st1 o c : opened st = Some c -> log_consume H st off max = Ok (st1, o) -> R c st st1.
-Proof.
+Lemma log_consume_G st off max st1 o c : opened st = Some c -> log_consume H st off max = Ok (st1, o) -> Rel c st st1.
+Proof using Rel_refl Rel_trans Rel_wi.
   intros Hc. unfold log_consume, get_cfg. rewrite Hc. cbn [bind].
   destruct (seg_consume (bases (segs st)) off) as [i|]; [|discriminate]. cbn [bind]. intros E. wi_step E Hk.
   destruct (reader_consume s items (is_last st i) off max) as [o1|e]; [injection E as <- <-; exact Hk|].
   destruct e; try discriminate. destruct (i <? zlen (segs st) - 1); [|discriminate].
   wi_step E Hk2. destruct (reader_consume s0 items0 (is_last st (i + 1)) OffsetOldest max); [|discriminate]. cbn [bind] in E.
-  injection E as <- <-. exact (R_trans _ _ _ _ Hk Hk2).
+  injection E as <- <-. exact (Rel_trans _ _ _ _ Hk Hk2).
 Qed.
+
+End Generic.
+
+Definition log_get_R := log_get_G R R_refl R_trans with_index_R.
+Definition log_get_by_key_R := log_get_by_key_G R R_refl R_trans with_index_R.
+Definition log_consume_by_key_R := log_consume_by_key_G R R_refl R_trans with_index_R.
+Definition log_get_by_time_R := log_get_by_time_G R R_refl R_trans with_index_R.
+Definition log_next_R := log_next_G R R_refl R_trans with_index_R.
+Definition log_stat_R := log_stat_G R R_refl R_trans with_index_R.
+Definition log_consume_R := log_consume_G R R_refl R_trans with_index_R.
 
 (* the statements used elsewhere *)
 Theorem log_get_preserves st off st1 m :
